@@ -35,6 +35,7 @@ def hx(b): return bytes(b).hex() if len(b) else '-'
 
 
 UB_NOTES = {}
+OOM_EXITS = []
 
 
 def note_ub(err):
@@ -63,8 +64,13 @@ def run_lines(h, lines, timeout=1500):
         if res and res[-1].startswith('HANG'):
             start = done; continue          # the HANG line is the reply of the hanging case
         cut = max(err.rfind('ERROR: AddressSanitizer'), err.rfind('Assertion `'), err.rfind('runtime error:'))
-        if cut >= 0: cut = err.rfind('\n', 0, cut) + 1
-        replies.append('CRASH ' + ' '.join(err[max(cut, 0):].strip().split('\n')[:16])[:1800])
+        if cut < 0: cut = max(err.rfind('failed to allocate'), err.rfind('error: out of memory, aborting'))
+        if cut >= 0:
+            cut = err.rfind('\n', 0, cut) + 1
+            tail = err[cut:].strip().split('\n')[:16]
+        else:
+            tail = err.strip().split('\n')[-8:]       # stderr accumulates over the whole history: the end is what belongs to this case
+        replies.append('CRASH ' + ' '.join(tail)[:1800])
         start = done + 1
         guard += 1
         if guard > 300:
@@ -90,6 +96,10 @@ def judge(ctx, c, r):
         key = 'hang:error-cap' if ('flood' in r or budget) else 'hang:%s' % base
         ctx.violation(key, 'schema compiler does not terminate on %s input (%s): %s' % (
             kl, 'unbounded stream of diagnostics: the error cap does not end the parse' if 'flood' in r else 'per-case alarm expired', r), replay_of(c, r))
+        return 0
+    if r.startswith('CRASH') and 'out of memory, aborting' in r and 'ERROR: AddressSanitizer' not in r and 'runtime error' not in r:
+        # the allocator returned NULL for an absurd request and checkmem() ended the process with exit(1): no invalid access, no crash
+        OOM_EXITS.append((kl, c['opts'].split(',inpath')[0]))
         return 0
     if r.startswith('CRASH') or not r.startswith('R '):
         what = 'crash / sanitizer report'
@@ -280,7 +290,12 @@ def run(ctx):
             if rng.random() < 0.3: add_buf('option_fuzz', 'table T { a:int }', opts='%s%s=%d' % (base, name, v), gen=2)
     for _ in range(200 if T else 40):
         picks = rng.sample(NUM_OPTS, rng.randint(2, 5))
-        add_buf('option_fuzz_combo', rng.choice(valid_texts), opts=','.join('%s=%d' % (n, rng.choice([-1, 0, 1, 2, 3, 4, 8, 9, 65535])) for n in picks), gen=2)
+        # vt_max_count is a table size (heap arrays of that many entries): keep it to real table sizes, see option_fuzz
+        add_buf('option_fuzz_combo', rng.choice(valid_texts),
+                opts=','.join('%s=%d' % (n, rng.choice([0, 1, 2, 3, 4, 8, 9, 65535] if n == 'vt_max_count' else [-1, 0, 1, 2, 3, 4, 8, 9, 65535])) for n in picks), gen=2)
+    # one deliberate absurd table size: the allocator refuses (allocator_may_return_null=1), flatcc's checkmem() prints
+    # "out of memory, aborting" and calls exit(1) - its allocation-failure policy, recorded as a note, not judged (see assumptions)
+    add_buf('oom_policy', valid_texts[0], opts='cgen_reader=1,vt_max_count=-1', gen=2)
     # ---- 5: random bytes / token soup
     for _ in range(4000 if T else 1000):
         k = rng.random()
@@ -399,6 +414,10 @@ def run(ctx):
             if v > 0: nacc += 1
             elif v < 0: nrej += 1
     ctx.cov['accepted'] = nacc; ctx.cov['rejected'] = nrej
+    if OOM_EXITS:
+        ctx.cov['allocation_failure_exits'] = ['%s %s' % x for x in OOM_EXITS[:20]]
+        ctx.notes.append('%d case(s) ended in checkmem(): allocator returned NULL for an absurd request (e.g. vt_max_count=-1), flatcc printed "out of memory, aborting" and called exit(1); '
+                         'allocation-failure policy of the compiler library, not judged by C06' % len(OOM_EXITS))
     if UB_NOTES:
         ctx.cov['arithmetic_ub_sites'] = dict(UB_NOTES)
         ctx.notes.append('arithmetic undefined behaviour observed (not a clause of C06, reported to C08): %r' % sorted(UB_NOTES))
